@@ -225,6 +225,10 @@ pub mod u3v {
                 Ok(cmd.len())
             }
 
+            pub fn nothing_to_receive(&self) -> bool {
+                self.replies.is_empty()
+            }
+
             pub fn on_recv(&mut self, buf: &mut [u8]) -> std::result::Result<usize, Error> {
                 let r = match self.replies.pop_front() {
                     None => {
@@ -377,7 +381,14 @@ pub mod u3v {
         pub fn send(&self, buf: &[u8], _timeout: Duration) -> Result<usize> {
             self.world.lock().unwrap().on_send(buf)
         }
-        pub fn recv(&self, buf: &mut [u8], _timeout: Duration) -> Result<usize> {
+        pub fn recv(&self, buf: &mut [u8], timeout: Duration) -> Result<usize> {
+            // libusb_bulk_transfer: a time-out of 0 means "wait without limit".  When nothing will ever arrive the
+            // real call never returns: the fake does the same (the harness' watchdog reports the hang).
+            if timeout.is_zero() && self.world.lock().unwrap().nothing_to_receive() {
+                loop {
+                    std::thread::sleep(Duration::from_secs(3600));
+                }
+            }
             self.world.lock().unwrap().on_recv(buf)
         }
         pub fn set_halt(&self, _timeout: Duration) -> Result<()> {
